@@ -24,7 +24,7 @@ LEVEL_TEXT = ("Multi-file, irregular frame layouts with a time-dependent sheared
 LEVEL_NOTE = "Negation and the interpolation arithmetic are sign-symmetric in IEEE arithmetic, but increments accumulate in a different order in the two runs (float32 fields): tolerance 1e-5 cells relative to O(1) positions is used for float32 storage, 1e-9 for float64 storage."
 RULE = ("case = (frame layout, file partition, start/stop positions, release table, mode, scheme). Non-trivial: at least two release times and a frame hand-over inside the run; "
         "distinct by parameters.")
-MANDATORY = ["records_compared", "multi_file", "several_release_times", "continuous", "discrete", "scheme_EF", "scheme_RK2", "scheme_RK4", "start_between_frames",
+MANDATORY = ["release_time_between_steps", "records_compared", "multi_file", "several_release_times", "continuous", "discrete", "scheme_EF", "scheme_RK2", "scheme_RK4", "start_between_frames",
              "clock_readings_checked", "release_times_checked"]
 ASSUMPTIONS = ["frames on the model time grid; release times sorted in simulation order"]
 TIMEOUT = {"quick": 900, "thorough": 3400}
@@ -72,9 +72,12 @@ def build(case: dict[str, Any]):
     rows = []
     rid = 0
     for s in rel_steps:
+        # discrete tables may state a time between two model steps (one time per step; released at the step before, in
+        # simulation order, in both runs)
+        frac = float(rng.choice([0.0, 0.0, 0.5, 0.25])) if (not cont and s + 1 < ns) else 0.0
         for _ in range(int(rng.integers(1, 4))):
             rid += 1
-            rows.append(dict(step=s, X=float(np.round(rng.uniform(6, imax - 7), 3)), Y=float(np.round(rng.uniform(5, jmax - 6), 3)), Z=float(np.round(rng.uniform(0, 80), 2)), rid=rid))
+            rows.append(dict(step=s, frac=frac, X=float(np.round(rng.uniform(6, imax - 7), 3)), Y=float(np.round(rng.uniform(5, jmax - 6), 3)), Z=float(np.round(rng.uniform(0, 80), 2)), rid=rid))
     return dict(dt=dt, P=P, files=files, S=S, E=E, ns=ns, imax=imax, jmax=jmax, N=N, dx=dx, pattern=pattern, amp=amp, prof=prof, store=store, scheme=scheme,
                 cont=cont, freq=freq, rows=rows)
 
@@ -90,8 +93,9 @@ def scenarios(b: dict[str, Any]):
     wfwd = dict(common, t0=t0, frames=[p * dt for p in Pm], files=list(reversed(b["files"])),
                 vel=dict(b["pattern"], frame_amp=[-a for a in reversed(b["amp"])], profile=b["prof"]))
     cols = ["release_time", "X", "Y", "Z", "rid"]
-    rrev = [[str(tadd(start, -r["step"] * dt)), r["X"], r["Y"], r["Z"], r["rid"]] for r in b["rows"]]
-    rfwd = [[str(tadd(start, r["step"] * dt)), r["X"], r["Y"], r["Z"], r["rid"]] for r in b["rows"]]
+    srt = sorted(b["rows"], key=lambda r: r["step"] + r.get("frac", 0.0))
+    rrev = [[str(tadd(start, -int(round((r["step"] + r.get("frac", 0.0)) * dt)))), r["X"], r["Y"], r["Z"], r["rid"]] for r in srt]
+    rfwd = [[str(tadd(start, int(round((r["step"] + r.get("frac", 0.0)) * dt)))), r["X"], r["Y"], r["Z"], r["rid"]] for r in srt]
     out = dict(period=dt, instance=dict(pid="i4", X="f8", Y="f8", Z="f8", rid="i4"))
     st = dict(instance_variables=dict(rid="int"))
 
@@ -127,6 +131,7 @@ def run_case(case: dict[str, Any], wd: Path) -> dict[str, Any]:
     sit["continuous" if b["cont"] else "discrete"] = 1
     sit[f"scheme_{b['scheme']}"] = 1
     sit["start_between_frames"] = int(b["S"] not in b["P"])
+    sit["release_time_between_steps"] = int(any(r.get("frac") for r in b["rows"]))
     key = str(desc)
     if not fres.ok:
         # the mirrored forward run is the reference: if it cannot run the case is void for this property
@@ -183,7 +188,7 @@ def run_case(case: dict[str, Any], wd: Path) -> dict[str, Any]:
         sit["records_compared"] = sit.get("records_compared", 0) + 1
     if not V:
         for r in b["rows"]:
-            if r["step"] < b["ns"]:
+            if r["step"] < b["ns"] and not r.get("frac"):
                 sit["release_times_checked"] = sit.get("release_times_checked", 0) + 1
                 if first_seen.get(r["rid"]) != r["step"]:
                     V.append(C.viol(f"release row {r['rid']} stated for {tadd(start, -r['step'] * dt)} (step {r['step']}) first appears in record {first_seen.get(r['rid'])} of the reversed run", **desc))
